@@ -2,6 +2,7 @@ import CatiiProofs.AggProofs
 import CatiiProofs.Bridge
 import CatiiProofs.IIndexWf
 import CatiiProofs.DiffGenBridge
+import CatiiProofs.ShiftGenBridge
 /-!
 # C05 — results are independent of which category is stored as common
 
@@ -40,6 +41,20 @@ theorem common_is_unobservable (s : Spec) (pre post : List IIndex) (i : IIndex) 
 theorem reencoded_dimension_ok (i : IIndex) (N : Nat) (hi : CubeDimOK N i) (v : Int) (hv : 0 ≤ v) :
     DimOK N (toDim (shiftTo i v)) :=
   dimOK_toDim _ (cubeDimOK_shiftTo i hi v hv)
+
+/-- the same with the re-encoding block of `shift_common` as REGENERATED from the source on every run (`Gen.shiftToGen`,
+tools/translate_shift.py): replacing a dimension by what the CURRENT `shift_common(v)` makes of it changes no cell of any
+aggregate of the index cube -/
+theorem generated_reencoding_is_unobservable (s : Spec) (pre post : List IIndex) (i : IIndex) (v : Int) (hv : 0 ≤ v)
+    (hne : v ≠ i.common) (exts : List Nat) (N : Nat) (hi : CubeDimOK N i)
+    (h : CubeOK ((pre ++ i :: post).map toDim) exts N)
+    (h' : CubeOK ((pre ++ Gen.shiftToGen i v :: post).map toDim) exts N) :
+    ∃ f f', ccubeAgg s ((pre ++ i :: post).map toDim) exts N = .ok f ∧
+      ccubeAgg s ((pre ++ Gen.shiftToGen i v :: post).map toDim) exts N = .ok f' ∧
+      ∀ c ∈ allCells exts, f c = f' c := by
+  have h2 : i.ndim ≤ 2 := by simp [IIndex.ndim, hi.oneAxis]
+  rw [gen_shiftTo_is_shiftTo i hi.wf h2 v hne] at h' ⊢
+  exact common_is_unobservable s pre post i v hv exts N hi h h'
 
 /-! Non-vacuity -/
 example : CubeDimOK 4 ⟨[([1], [0, 2]), ([2], [1])], 0, [4]⟩ :=
